@@ -1883,7 +1883,28 @@ func (x *Exec) dynTypeIs(v Term, t types.Type) Term {
 		return T("("+name+" "+v.S+")", SBool)
 	}
 	name := "dyn_is_" + sanitize(types.TypeString(t, nil)) + "_" + sanitize(string(v.Sort))
-	x.W.DeclareFun(name, []Sort{v.Sort}, SBool)
+	if !x.W.constSeen[name] {
+		x.W.DeclareFun(name, []Sort{v.Sort}, SBool)
+		if _, isIface := t.Underlying().(*types.Interface); !isIface {
+			// a value has at most one concrete dynamic type; the nil interface has none
+			key := string(v.Sort)
+			if x.W.dynTests == nil {
+				x.W.dynTests = map[string][]string{}
+			}
+			for _, prev := range x.W.dynTests[key] {
+				x.W.Facts = append(x.W.Facts, fmt.Sprintf("(forall ((v %s)) (! (not (and (%s v) (%s v))) :pattern ((%s v)) :pattern ((%s v))))", v.Sort, prev, name, prev, name))
+			}
+			x.W.dynTests[key] = append(x.W.dynTests[key], name)
+			if v.GoT != nil {
+				if _, vi := v.GoT.Underlying().(*types.Interface); vi && x.noFacts == 0 {
+					z := x.zero(v.GoT)
+					if z.Sort == v.Sort {
+						x.W.Facts = append(x.W.Facts, "(not ("+name+" "+z.S+"))")
+					}
+				}
+			}
+		}
+	}
 	return T("("+name+" "+v.S+")", SBool)
 }
 
